@@ -494,7 +494,9 @@ func metabin(t *Thread, f string, x Value, y Value) (Value, error, bool) {
 
 func metaun(t *Thread, f string, x Value) (Value, error, bool) {
 	res := NewTerminationWith(t.CurrentCont(), 1, false)
-	err, ok := Metacall(t, x, f, []Value{x}, res)
+	// The metamethod of a unary operator is called with a dummy second
+	// operand, equal to the first one (Lua manual, section 2.4).
+	err, ok := Metacall(t, x, f, []Value{x, x}, res)
 	if ok {
 		return res.Get(0), err, true
 	}
